@@ -131,13 +131,6 @@ def parseActual? (s : String) : Option (List Nat) :=
 
 /-! ### the oracle on the implementation's events -/
 
-def kindOf : Cmd → Kind
-  | .select _ => .select
-  | .close | .unselect => .unselect
-  | .store false .. | .fetch false .. | .search false .. => .quiet
-  | .search true .. => .uidSearch
-  | _ => .other
-
 def statusOk (st : String) : Bool := st = "OK" || st.startsWith "OK:"
 
 /-- applies one observed response to the connection's view -/
